@@ -246,15 +246,34 @@ def shard_e2e(arg):
     return st
 
 
+def orientation_variants(edges):
+    """the same simple graph with its edges entered ascending, descending and 'long edges reversed'"""
+    out = [[list(e) for e in edges]]
+    if edges:
+        for v in ([[b, a] for a, b in edges], [[b, a] if b - a >= 2 else [a, b] for a, b in edges]):
+            if v not in out:
+                out.append(v)
+    return out
+
+
 def all_cases(max_exh_n, grid_cells, thorough):
     cases = []
     for n in range(1, max_exh_n + 1):
         for edges in graphref.all_simple_graphs(n):
-            for ac in (False, True):
-                for nat in (False, True):
-                    if ac and nat:
-                        continue  # primitive is never used for acyclic; covered on grids/drawn graphs
-                    cases.append(dict(n=n, edges=[list(e) for e in edges], acyclic=ac, native=nat))
+            # the orientation in which an edge is entered must not matter: ascending, descending and
+            # "long edges reversed" (which turns ascending triangles / 4-cycles into directed cycles)
+            variants = [[list(e) for e in edges]]
+            if edges:
+                variants.append([[v, u] for u, v in edges])
+                lr = [[v, u] if v - u >= 2 else [u, v] for u, v in edges]
+                if lr not in variants:
+                    variants.append(lr)
+            for ev in variants:
+                for ac in (False, True):
+                    for nat in (False, True):
+                        if ac and nat:
+                            continue  # primitive is never used for acyclic; covered on grids/drawn graphs
+                        cases.append(dict(n=n, edges=ev, acyclic=ac, native=nat))
     for h in range(1, grid_cells + 1):
         for w in range(1, grid_cells // h + 1):
             for ac in (False, True):
@@ -265,7 +284,7 @@ def all_cases(max_exh_n, grid_cells, thorough):
 
 def run(ctx):
     ctx.rule = (
-        "M1: every labelled simple graph on 1..4 (thorough 5) vertices, Hypothesis-drawn simple and multi "
+        "M1: every labelled simple graph on 1..4 (thorough 5) vertices in three edge orientations, Hypothesis-drawn simple and multi "
         "graphs up to 7 (9) vertices, every grid shape with h*w <= 11 (16) through the BoolArray2D form, x "
         "acyclic x {rank, native} encodings; for each, ALL 2^n activity patterns are decided on the posted "
         "program by an independent solver and compared with BFS (tree: connected and |E|=|V|-1). M2/M3: "
